@@ -34,6 +34,8 @@ def acquisition_native(vc):
     q = rng.uniform(-2.4, 2.4, size=d)
     mu, sig = opt.gp(q)
     mu, sig = float(mu[0]), float(sig[0])
+    if acq_cls is UpperConfidenceBound and vc.bool("kappa_reassigned_after_construction"):
+        acq.kappa = float(rng.uniform(0.2, 6.0))        # an exploration schedule: the value in force is the attribute's
     val = float(acq(q))
     if acq_cls is ExpectedImprovement:
         ymax = acq.mu_max
@@ -259,7 +261,11 @@ def confidence_bound_and_variance(vc):
     x = vc.vector("x", d)
     if which == "UpperConfidenceBound":
         kappa = vc.real("kappa", lo=0)
-        acq = vc.new(ACQ, which, kappa)
+        if vc.choice("kappa_set", ["at_construction", "reassigned_afterwards"]) == "at_construction":
+            acq = vc.new(ACQ, which, kappa)
+        else:       # an exploration schedule re-assigns the public attribute: value AND gradient follow the value in force
+            acq = vc.new(ACQ, which, vc.real("kappa_at_construction", lo=0))
+            vc.setattr(acq, "kappa", kappa)
         want = S.add(g.mu, S.mul(kappa, g.sig))
     else:
         acq = vc.new(ACQ, which)
